@@ -5,7 +5,12 @@ pub mod c01;
 pub mod c02;
 pub mod c03;
 pub mod crash;
+pub mod c04;
 pub mod c05;
+pub mod c06;
+pub mod c08;
+pub mod c09;
+pub mod c10;
 pub mod c11;
 
 use crate::runner::Monitor;
@@ -15,7 +20,12 @@ pub fn by_id(id: &str) -> Option<Box<dyn Monitor>> {
         "C01" => Some(Box::new(c01::C01)),
         "C02" => Some(Box::new(c02::C02)),
         "C03" => Some(Box::new(c03::C03)),
+        "C04" => Some(Box::new(c04::C04)),
         "C05" => Some(Box::new(c05::C05)),
+        "C06" => Some(Box::new(c06::C06)),
+        "C08" => Some(Box::new(c08::C08)),
+        "C09" => Some(Box::new(c09::C09)),
+        "C10" => Some(Box::new(c10::C10)),
         "C11" => Some(Box::new(c11::C11)),
         _ => None,
     }
